@@ -627,7 +627,25 @@ class FnLower:
                 self.exc_check()
             return
         if k == 'CXXStdInitializerListExpr':
-            raise Unsupported('std::initializer_list')
+            # std::initializer_list<E>{e1..en}: a backing array plus {pointer, length}
+            arr = ks[0]
+            while arr.get('kind') in ('MaterializeTemporaryExpr', 'ExprWithCleanups', 'CXXBindTemporaryExpr') or arr.get('kind') in CAST_KINDS:
+                arr = kids(arr)[0]
+            if arr.get('kind') != 'InitListExpr':
+                raise Unsupported('std::initializer_list backing store ' + str(arr.get('kind')))
+            elems = kids(arr)
+            aq = qt(arr)
+            m = re.match(r'^(.*)\[(\d+)\]$', aq.strip())
+            if not m:
+                raise Unsupported('std::initializer_list array type ' + aq)
+            eq = m.group(1).strip()
+            if self.L.is_class(eq):
+                raise Unsupported('std::initializer_list of class type ' + eq)
+            t = self.fresh('il')
+            vals = [self.rv(e) for e in elems]
+            self.emit('%s %s[%d] = { %s };' % (self.L.ctype(eq), t, max(1, len(vals)), ', '.join(vals) if vals else '0'))
+            self.emit('%s = %s; %s = %d;' % (arrow(dest, 'p'), t, arrow(dest, 'n'), len(vals)))
+            return
         raise Unsupported('into %s' % k)
 
     def initlist_into(self, n, dest):
